@@ -87,7 +87,7 @@ static void initAlphabet() {
   g_alpha.push_back(FT{"TTH", 1, false, 0, 0, false, false, 'T', {"00:00", "23:00", "10:30"}});
   g_subByteBits = FT{"TTH", 1, true, 0, 6, false, false, 'T', {"00:00", "23:00", "10:30"}};
   // variable length string, only admissible as last field of its part
-  g_alpha.push_back(FT{"STR:*", 0, false, 0, 0, false, true, 'V', {"a", "bcd", "XY"}});
+  g_alpha.push_back(FT{"STR:*", 0, false, 0, 0, false, true, 'V', {"", "bcd", "XY"}});  // the empty value still spans one (padding) byte
 }
 static int g_varIndex = -1;
 
